@@ -8,4 +8,7 @@ import Fir.Props.C03
 #print axioms Fir.C03.precision_lt_bits
 #print axioms Fir.C03.precision_ge_one
 #print axioms Fir.C03.precision_in_arms
+#print axioms Fir.C03.xmin_le_xmax
+#print axioms Fir.C03.span_le_window
+#print axioms Fir.C03.window_size_le_in_size
 #print axioms Fir.C03.idealGeom_in_source
